@@ -416,6 +416,10 @@ def run(chk):
 
     # ------------------------------------------------------------------ C01.err400
     err400(chk, repo, folder, errs)
+    # nothing but an HTTP protocol error can leave the request parser (shared with C10.total): otherwise malformed input is not answered 400
+    from rules import C10
+
+    chk.include(C10.run, ("C10.total.request", "C10.total.server"), ("C10.total.", "C01.err400.escape."))
 
 
 def err400(chk, repo, folder, errs, rule="C01.err400"):
